@@ -43,7 +43,7 @@ func (c06) Bounds(tier string) map[string]interface{} {
 	if tier == "thorough" {
 		return map[string]interface{}{"graphs": "all N<=3 (lists<=2) + named N=4", "fault_set_size": "<=2 (N<=3), <=3 named", "kinds": c06Kinds, "foreign": true}
 	}
-	return map[string]interface{}{"graphs": "12 named shapes (N=2..4) + two-level trees of 5 and 6 files (single faults)", "fault_set_size": "<=2", "kinds": c06Kinds, "foreign": true}
+	return map[string]interface{}{"graphs": "12 named shapes (N=2..4) + two-level trees of 5 and 6 files and fans of 4 and 5 imports (single faults)", "fault_set_size": "<=2", "kinds": c06Kinds, "foreign": true}
 }
 
 var c06QuickShapes = map[string][][]int{
@@ -128,6 +128,10 @@ func (c06) Cases(tier string, emit func(string, interface{})) {
 	// branch of the root completes (an error raised deep in one branch must still be the one reported)
 	addGraph([][]int{{1, 4}, {2, 3}, {}, {}, {}}, "tree5", 1)
 	addGraph([][]int{{1, 4}, {2, 3}, {}, {}, {5}, {}}, "tree6", 1)
+	// wide fans (a bounded number of concurrent retrievals per file would treat the 4th and 5th import differently)
+	addGraph([][]int{{1, 2, 3, 4}, {}, {}, {}, {}}, "fan4", 1)
+	addGraph([][]int{{1, 2, 3, 4, 5}, {}, {}, {}, {}, {}}, "fan5", 1)
+	addGraph([][]int{{1, 2, 3, 4}, {}, {}, {}, {5}, {}}, "fan4-deep", 1)
 	// foreign files: root -> {b, F}, b -> {F}; and F alone as root import
 	for _, ff := range foreignFaults {
 		for si, shape := range []string{"solo", "sibling", "shared"} {
